@@ -149,15 +149,14 @@ theorem zone_wsLen {zz : List Nat} (cc : List Nat) (h : ∃ c t, zz = c :: t ∧
   rw [if_neg (by omega)]
 
 theorem zonePart_spec (p : Parsed) (w7 zz cc : List Nat) (off : Int) (hw : Ws1 w7) (hz : Zone zz off)
-    (hc : Comments cc) (hp : p.offset = none) (hoff : -2147483648 ≤ off ∧ off ≤ 2147483647) :
-    zonePart p (w7 ++ (zz ++ cc)) = .ok ({ p with offset := some off }, []) := by
-  obtain ⟨htz, hhead⟩ := tz_spec hz cc (comments_noAlpha hc)
+    (hc : NoAlphaHead cc) (hp : p.offset = none) (hoff : -2147483648 ≤ off ∧ off ≤ 2147483647) :
+    zonePart p (w7 ++ (zz ++ cc)) = .ok ({ p with offset := some off }, Parse.commentsAux cc.length cc) := by
+  obtain ⟨htz, hhead⟩ := tz_spec hz cc hc
   obtain ⟨hws, _⟩ := zone_wsLen cc hhead
   unfold zonePart
   rw [space_ws hw _ hws]
   have h32 : Parsed.toI32 off = .ok off := (Chrono.Proofs.ParsedRes.toI32_ok _ _).mpr ⟨hoff, rfl⟩
   simp only [bind, Except.bind, htz, Parsed.set_offset, h32, hp, Parsed.setIf, pure, Except.pure]
-  rw [commentsAux_all hc _ (Nat.le_refl _)]
 
 
 theorem decVal_two (d : List Nat) (hd : Digits d) (hl : d.length = 2) : decVal d ≤ 99 := by
@@ -175,12 +174,12 @@ theorem number_two (d rest : List Nat) (hd : Digits d) (hl : d.length = 2) :
     (Or.inl (by rw [hl])) (by unfold I64_MAX; omega)
 
 theorem secPart_spec (p : Parsed) (ss w7 zz cc : List Nat) (sec : Option Nat) (off : Int)
-    (hs : Seconds ss sec) (hw : Ws1 w7) (hz : Zone zz off) (hc : Comments cc)
+    (hs : Seconds ss sec) (hw : Ws1 w7) (hz : Zone zz off) (hc : NoAlphaHead cc)
     (hp1 : p.second = none) (hp2 : p.offset = none) (hsec : ∀ x, sec = some x → x ≤ 60)
     (hoff : -2147483648 ≤ off ∧ off ≤ 2147483647) :
     secPart p (ss ++ (w7 ++ (zz ++ cc))) =
-      .ok ({ p with second := sec.map Int.ofNat, offset := some off }, []) := by
-  obtain ⟨_, hhead⟩ := tz_spec hz cc (comments_noAlpha hc)
+      .ok ({ p with second := sec.map Int.ofNat, offset := some off }, Parse.commentsAux cc.length cc) := by
+  obtain ⟨_, hhead⟩ := tz_spec hz cc hc
   obtain ⟨hws, hch⟩ := zone_wsLen cc hhead
   unfold secPart
   rcases hs with ⟨rfl, rfl⟩ | ⟨w, d, hw', hd, hdl, rfl, rfl⟩
@@ -221,14 +220,14 @@ theorem set_hour_fresh (p : Parsed) (H : Nat) (hH : H ≤ 23) (h1 : p.hour_div_1
 theorem timePart_spec (p : Parsed) (w4 hh w5 w6 mm ss w7 zz cc : List Nat) (sec : Option Nat) (off : Int)
     (hw4 : Ws1 w4) (hhd : Digits hh) (hhl : hh.length = 2) (hw5 : Ws w5) (hw6 : Ws w6)
     (hmd : Digits mm) (hml : mm.length = 2)
-    (hs : Seconds ss sec) (hw : Ws1 w7) (hz : Zone zz off) (hc : Comments cc)
+    (hs : Seconds ss sec) (hw : Ws1 w7) (hz : Zone zz off) (hc : NoAlphaHead cc)
     (hH : decVal hh ≤ 23) (hM : decVal mm ≤ 59) (hsec : ∀ x, sec = some x → x ≤ 60)
     (hoff : -2147483648 ≤ off ∧ off ≤ 2147483647)
     (hp1 : p.hour_div_12 = none) (hp2 : p.hour_mod_12 = none) (hp3 : p.minute = none)
     (hp4 : p.second = none) (hp5 : p.offset = none) :
     timePart p (w4 ++ (hh ++ (w5 ++ (58 :: (w6 ++ (mm ++ (ss ++ (w7 ++ (zz ++ cc)))))))))
       = .ok ({ p with hour_div_12 := some ((decVal hh : Int) / 12), hour_mod_12 := some ((decVal hh : Int) % 12),
-                      minute := some (decVal mm : Int), second := sec.map Int.ofNat, offset := some off }, []) := by
+                      minute := some (decVal mm : Int), second := sec.map Int.ofNat, offset := some off }, Parse.commentsAux cc.length cc) := by
   unfold timePart
   rw [space_ws hw4 _ (digits_head hhd (by omega) _)]
   simp only [bind, Except.bind, number_two hh _ hhd hhl, setField, set_hour_fresh p _ hH hp1 hp2, Except.map]
@@ -267,7 +266,7 @@ theorem yearPart_spec (p : Parsed) (w3 yy w4 hh w5 w6 mm ss w7 zz cc : List Nat)
     (hw3 : Ws1 w3) (hyd : Digits yy) (hyl : 2 ≤ yy.length)
     (hw4 : Ws1 w4) (hhd : Digits hh) (hhl : hh.length = 2) (hw5 : Ws w5) (hw6 : Ws w6)
     (hmd : Digits mm) (hml : mm.length = 2)
-    (hs : Seconds ss sec) (hw : Ws1 w7) (hz : Zone zz off) (hc : Comments cc)
+    (hs : Seconds ss sec) (hw : Ws1 w7) (hz : Zone zz off) (hc : NoAlphaHead cc)
     (hY : yearOf yy ≤ 2147483647)
     (hH : decVal hh ≤ 23) (hM : decVal mm ≤ 59) (hsec : ∀ x, sec = some x → x ≤ 60)
     (hoff : -2147483648 ≤ off ∧ off ≤ 2147483647)
@@ -277,7 +276,7 @@ theorem yearPart_spec (p : Parsed) (w3 yy w4 hh w5 w6 mm ss w7 zz cc : List Nat)
     yearPart p (w3 ++ (yy ++ (w4 ++ (hh ++ (w5 ++ (58 :: (w6 ++ (mm ++ (ss ++ (w7 ++ (zz ++ cc)))))))))))
       = .ok ({ p with year := some (yearOf yy),
                       hour_div_12 := some ((decVal hh : Int) / 12), hour_mod_12 := some ((decVal hh : Int) % 12),
-                      minute := some (decVal mm : Int), second := sec.map Int.ofNat, offset := some off }, []) := by
+                      minute := some (decVal mm : Int), second := sec.map Int.ofNat, offset := some off }, Parse.commentsAux cc.length cc) := by
   have hge := yearOf_ge yy
   obtain ⟨c, t, hct, hcd, _⟩ := ws1_head hw4 (hh ++ (w5 ++ (58 :: (w6 ++ (mm ++ (ss ++ (w7 ++ (zz ++ cc))))))))
   unfold yearPart
@@ -306,7 +305,7 @@ theorem datePart_spec (p : Parsed) (w1 dd w2 mn w3 yy w4 hh w5 w6 mm ss w7 zz cc
     (hw3 : Ws1 w3) (hyd : Digits yy) (hyl : 2 ≤ yy.length)
     (hw4 : Ws1 w4) (hhd : Digits hh) (hhl : hh.length = 2) (hw5 : Ws w5) (hw6 : Ws w6)
     (hmd : Digits mm) (hml : mm.length = 2)
-    (hs : Seconds ss sec) (hw : Ws1 w7) (hz : Zone zz off) (hc : Comments cc)
+    (hs : Seconds ss sec) (hw : Ws1 w7) (hz : Zone zz off) (hc : NoAlphaHead cc)
     (hD : 1 ≤ decVal dd ∧ decVal dd ≤ 31) (hY : yearOf yy ≤ 2147483647)
     (hH : decVal hh ≤ 23) (hM : decVal mm ≤ 59) (hsec : ∀ x, sec = some x → x ≤ 60)
     (hoff : -2147483648 ≤ off ∧ off ≤ 2147483647)
@@ -317,7 +316,7 @@ theorem datePart_spec (p : Parsed) (w1 dd w2 mn w3 yy w4 hh w5 w6 mm ss w7 zz cc
         (w7 ++ (zz ++ cc)))))))))))))))
       = .ok ({ p with day := some (decVal dd : Int), month := some (m : Int), year := some (yearOf yy),
                       hour_div_12 := some ((decVal hh : Int) / 12), hour_mod_12 := some ((decVal hh : Int) % 12),
-                      minute := some (decVal mm : Int), second := sec.map Int.ofNat, offset := some off }, []) := by
+                      minute := some (decVal mm : Int), second := sec.map Int.ofNat, offset := some off }, Parse.commentsAux cc.length cc) := by
   obtain ⟨i, hi, hcase, rfl⟩ := hmn
   obtain ⟨_, _, _, _, _, t5, _⟩ := name_tables
   have hal := caseOf_alpha (t5 i hi).2 hcase
@@ -369,13 +368,35 @@ def SetterRanges (f : Fields) : Prop :=
   1 ≤ f.day ∧ f.day ≤ 31 ∧ f.year ≤ 2147483647 ∧ f.hour ≤ 23 ∧ f.min ≤ 59 ∧ secOf f ≤ 60 ∧
   -2147483648 ≤ f.off ∧ f.off ≤ 2147483647
 
-/-- scanner completeness: every string of the grammar is consumed entirely and yields exactly the
-fields it spells -/
-theorem parse_rfc2822_complete (s : List Nat) (f : Fields) (h : Rfc2822 s f) (hr : SetterRanges f) :
-    Parse.parse_rfc2822 Parsed.new s = .ok (parsedOf f, []) := by
+/-- the grammar relation with an arbitrary text `tail` in the place of the trailing comments -/
+def Rfc2822Pre (s : List Nat) (f : Fields) (tail : List Nat) : Prop :=
+  ∃ w0 dn w1 dd w2 mn w3 yy w4 hh w5 w6 mm ss w7 zz,
+    Ws w0 ∧ DayName dn f.weekday ∧ Ws w1 ∧
+    Digits dd ∧ (dd.length = 1 ∨ dd.length = 2) ∧ decVal dd = f.day ∧
+    Ws1 w2 ∧ MonthName mn f.month ∧ Ws1 w3 ∧
+    Digits yy ∧ 2 ≤ yy.length ∧ yearOf yy = f.year ∧ Ws1 w4 ∧
+    Digits hh ∧ hh.length = 2 ∧ decVal hh = f.hour ∧ Ws w5 ∧ Ws w6 ∧
+    Digits mm ∧ mm.length = 2 ∧ decVal mm = f.min ∧
+    Seconds ss f.sec ∧ Ws1 w7 ∧ Zone zz f.off ∧
+    s = w0 ++ (dn ++ (w1 ++ (dd ++ (w2 ++ (mn ++ (w3 ++ (yy ++ (w4 ++ (hh ++ (w5 ++
+          (58 :: (w6 ++ (mm ++ (ss ++ (w7 ++ (zz ++ tail))))))))))))))))
+
+theorem rfc2822_pre {s : List Nat} {f : Fields} (h : Rfc2822 s f) : ∃ cc, Comments cc ∧ Rfc2822Pre s f cc := by
   obtain ⟨w0, dn, w1, dd, w2, mn, w3, yy, w4, hh, w5, w6, mm, ss, w7, zz, cc,
     hw0, hdn, hw1, hdd, hdl, hdv, hw2, hmn, hw3, hyd, hyl, hyv, hw4, hhd, hhl, hhv, hw5, hw6, hmd, hml, hmv,
     hs, hw7, hz, hc, rfl⟩ := h
+  exact ⟨cc, hc, w0, dn, w1, dd, w2, mn, w3, yy, w4, hh, w5, w6, mm, ss, w7, zz,
+    hw0, hdn, hw1, hdd, hdl, hdv, hw2, hmn, hw3, hyd, hyl, hyv, hw4, hhd, hhl, hhv, hw5, hw6, hmd, hml, hmv,
+    hs, hw7, hz, rfl⟩
+
+/-- scanner completeness with ANY text after the zone that does not start with a letter: everything up to
+and including the zone is read as the fields it spells, then comments are skipped as far as they go -/
+theorem parse_rfc2822_complete_tail (s : List Nat) (f : Fields) (cc : List Nat) (h : Rfc2822Pre s f cc)
+    (hc : NoAlphaHead cc) (hr : SetterRanges f) :
+    Parse.parse_rfc2822 Parsed.new s = .ok (parsedOf f, Parse.commentsAux cc.length cc) := by
+  obtain ⟨w0, dn, w1, dd, w2, mn, w3, yy, w4, hh, w5, w6, mm, ss, w7, zz,
+    hw0, hdn, hw1, hdd, hdl, hdv, hw2, hmn, hw3, hyd, hyl, hyv, hw4, hhd, hhl, hhv, hw5, hw6, hmd, hml, hmv,
+    hs, hw7, hz, rfl⟩ := h
   obtain ⟨r1, r2, r3, r4, r5, r6, r7, r8⟩ := hr
   have hsec : ∀ x, f.sec = some x → x ≤ 60 := by
     intro x hx; unfold secOf at r6; rw [hx] at r6; exact r6
@@ -419,5 +440,57 @@ theorem parse_rfc2822_complete (s : List Nat) (f : Fields) (h : Rfc2822 s f) (hr
     rw [this]
     unfold parsedOf
     rw [hwd, hwi, hdv, hyv, hhv, hmv]
+
+/-- scanner completeness: every string of the grammar is consumed entirely and yields exactly the
+fields it spells -/
+theorem parse_rfc2822_complete (s : List Nat) (f : Fields) (h : Rfc2822 s f) (hr : SetterRanges f) :
+    Parse.parse_rfc2822 Parsed.new s = .ok (parsedOf f, []) := by
+  obtain ⟨cc, hc, hp⟩ := rfc2822_pre h
+  rw [parse_rfc2822_complete_tail s f cc hp (comments_noAlpha hc) hr, commentsAux_all hc _ (Nat.le_refl _)]
+
+/-- comments are skipped up to a text that starts no comment -/
+theorem commentsAux_rest {cc : List Nat} (hc : Comments cc) (b : List Nat)
+    (hb : ∃ e, Scan.comment_2822 b = .error e) :
+    ∀ fuel, (cc ++ b).length ≤ fuel → Parse.commentsAux fuel (cc ++ b) = b := by
+  obtain ⟨e, he⟩ := hb
+  induction hc with
+  | nil =>
+    intro fuel _
+    cases fuel with
+    | zero => rfl
+    | succ f => simp only [List.nil_append, Parse.commentsAux, he]
+  | cons w a r hw ha _ ih =>
+    intro fuel hf
+    cases fuel with
+    | zero => simp at hf
+    | succ f =>
+      have := comment_one hw ha (r ++ b)
+      simp only [List.append_assoc, List.cons_append] at this ⊢
+      simp only [Parse.commentsAux, this]
+      apply ih
+      simp only [List.length_append, List.length_cons] at hf ⊢
+      omega
+
+/-- **the item in front of more text**: a string of the grammar followed by a text `b` that starts neither
+with a letter nor with a comment (`*S "("`): the scanner reads the fields and stops exactly in front of `b` -/
+theorem parse_rfc2822_complete_rest (s : List Nat) (f : Fields) (h : Rfc2822 s f) (hr : SetterRanges f)
+    (b : List Nat) (hb : NoAlphaHead b) (hcb : ∃ e, Scan.comment_2822 b = .error e) :
+    Parse.parse_rfc2822 Parsed.new (s ++ b) = .ok (parsedOf f, b) := by
+  obtain ⟨cc, hc, w0, dn, w1, dd, w2, mn, w3, yy, w4, hh, w5, w6, mm, ss, w7, zz,
+    hw0, hdn, hw1, hdd, hdl, hdv, hw2, hmn, hw3, hyd, hyl, hyv, hw4, hhd, hhl, hhv, hw5, hw6, hmd, hml, hmv,
+    hs, hw7, hz, rfl⟩ := rfc2822_pre h
+  have hna : NoAlphaHead (cc ++ b) := by
+    cases hc with
+    | nil => exact hb
+    | cons w a r hw ha hr' =>
+      rcases comments_noAlpha (Comments.cons w a r hw ha hr') with h0 | ⟨c, t, h1, h2⟩
+      · exact absurd (congrArg List.length h0) (by simp)
+      · exact Or.inr ⟨c, t ++ b, by rw [h1]; rfl, h2⟩
+  have hpre : Rfc2822Pre ((w0 ++ (dn ++ (w1 ++ (dd ++ (w2 ++ (mn ++ (w3 ++ (yy ++ (w4 ++ (hh ++ (w5 ++
+      (58 :: (w6 ++ (mm ++ (ss ++ (w7 ++ (zz ++ cc))))))))))))))))) ++ b) f (cc ++ b) :=
+    ⟨w0, dn, w1, dd, w2, mn, w3, yy, w4, hh, w5, w6, mm, ss, w7, zz,
+      hw0, hdn, hw1, hdd, hdl, hdv, hw2, hmn, hw3, hyd, hyl, hyv, hw4, hhd, hhl, hhv, hw5, hw6, hmd, hml, hmv,
+      hs, hw7, hz, by simp only [List.append_assoc, List.cons_append]⟩
+  rw [parse_rfc2822_complete_tail _ f (cc ++ b) hpre hna hr, commentsAux_rest hc b hcb _ (Nat.le_refl _)]
 
 end Chrono.Proofs.Rfc2822
